@@ -144,10 +144,11 @@ def _list(ex, st, pos, kw, node, star):
         s = SeqOf(v.elem).fresh(ex.ctx, "enum")
         x = z3.Const(ex.ctx.fresh_name("ex"), v.elem.sort())
         i, j = z3.Ints(ex.ctx.fresh_name("ei") + " " + ex.ctx.fresh_name("ej"))
-        st.assume(z3.ForAll([x], z3.Contains(s.t, z3.Unit(x)) == v.t[x]))
-        st.assume(z3.ForAll([i, j], z3.Implies(z3.And(0 <= i, i < j, j < z3.Length(s.t)), s.t[i] != s.t[j])))
-        st.assume(z3.Length(s.t) == bigop.card(v.t))
-        st.ghost[("enum_of", s.t.get_id())] = v
+        st.assume(s.n >= 0)
+        st.assume(z3.ForAll([x], s.has(x) == v.t[x]))
+        st.assume(z3.ForAll([i, j], z3.Implies(z3.And(0 <= i, i < j, j < s.n), s.arr[i] != s.arr[j])))
+        st.assume(s.n == bigop.card(v.t))
+        st.ghost[("enum_of", s.arr.get_id())] = v
         return [(st, st.alloc(HeapObj("cell", val=s)))]
     raise Unsupported(f"list() of {v!r}")
 
@@ -325,7 +326,7 @@ def _combinations(ex, st, pos, kw, node, star):
     if r != 2:
         raise Unsupported("combinations with r != 2")
     v = ops.deref(st, pos[0])
-    src = st.ghost.get(("enum_of", v.t.get_id())) if isinstance(v, VSeq) else None
+    src = st.ghost.get(("enum_of", v.arr.get_id())) if isinstance(v, VSeq) else None
     if src is None:
         raise Unsupported("combinations over a sequence that is not a known set enumeration")
     from . import speclib
